@@ -18,6 +18,7 @@ func init() {
 			"NOT decided: that First/Next/Prev/Seek agree with a sorted list in general; termination beyond the exhaustion discipline (no termination prover is available). Round 3: a value truncated to an on-disk field width (uint16 element index) never indexes or sizes an in-memory collection — a materialised node holds more than 65535 inodes before it is split.",
 		Run: func(c *Ctx) {
 			debugNarrowing(c)
+			ruleAbsolutePositioningRestarts(c, "C05.R7")
 			ruleNarrowingConfined(c, "C05.R6") // "visits every key exactly once": a cursor over a materialised node addresses element i, not i mod 65536
 			c05R1(c, "C05.R1")
 			c05R2(c, "C05.R2")
